@@ -267,6 +267,11 @@ class Repo:
                 if len(vals) != 1:
                     continue
                 v = vals[0]
+                if isinstance(v, ast.Call) and ast.unparse(v.func) in ('typing.NamedTuple', 'NamedTuple') and len(v.args) == 2 \
+                        and isinstance(v.args[1], (ast.List, ast.Tuple)) and all(
+                            isinstance(x, ast.Tuple) and len(x.elts) == 2 and isinstance(x.elts[0], ast.Constant) for x in v.args[1].elts):
+                    found[name] = [x.elts[0].value for x in v.args[1].elts]
+                    continue
                 if isinstance(v, ast.Call) and ast.unparse(v.func) in ('collections.namedtuple', 'namedtuple') and len(v.args) >= 2 \
                         and isinstance(v.args[0], ast.Constant):
                     f = v.args[1]
@@ -279,6 +284,12 @@ class Repo:
                         if name in found and found[name] != fields:
                             clash.add(name)
                         found[name] = fields
+        for m in self.modules.values():
+            for c in m.classes.values():
+                if self.is_value_class(c):
+                    fields = [st.target.id for st in c.node.body if isinstance(st, ast.AnnAssign) and isinstance(st.target, ast.Name)]
+                    if fields and c.name not in found:
+                        found[c.name] = fields
         # ``s = StatusInfo``: another name of the same record type
         for m in self.modules.values():
             for name, vals in m.assigns.items():
